@@ -101,3 +101,62 @@ def builtin_generators_closed(which):
         if why:
             raise AssertionError(why)
     return True
+
+
+NAMES = ["r_0", "r_1", "q_p", "q_n", "i_a", "b_x", "xy", "j_b", "zz"]
+
+
+@harness("C06", args="sn: int, inn: int, late: bool", pre=[f"0 <= sn < {len(NAMES)}", f"0 <= inn < {len(NAMES)}", "sn != inn"],
+         tiers={"quick": {"timeout": 150}}, sample=(0, 2, False),
+         bounds="a module using every name-inventing construct (array r, pair q, implicit port-reference signal i_a, bundle b.x, named no-connect xy, unnamed no-connect j_b) next to a designer signal and a designer instance whose names are drawn from those invented names; declared before or after; post: the exported package is closed, from_proto and both netlisters accept it (or elaboration raised)",
+         generalises="name selectors (solver-enumerated)", outside="")
+def invented_names_closed(sn, inn, late):
+    sn, inn = env.pick(sn, 0, len(NAMES) - 1), env.pick(inn, 0, len(NAMES) - 1)
+    late = bool(late)
+    with env.notrace():
+        return _invented(NAMES[sn], NAMES[inn], late)
+
+
+def _invented(sname, iname, late):
+    env._reset_all()
+    C = h.ExternalModule(name="Cell", port_list=[h.Port(name="a"), h.Port(name="b")], paramtype=dict)
+    P = h.Module(name="PCell")
+    P.q, P.g = h.Port(), h.Port()
+    P.c = C({})(a=P.q, b=P.g)
+    B = h.Bundle(name="B")
+    B.add(h.Signal(name="x"))
+    m = h.Module(name="Top")
+    sig = h.Signal(name=sname)
+    mine = h.Instance(name=iname, of=C({}))
+    if not late:
+        m.add(sig), m.add(mine)
+    m.s = h.Signal()
+    m.d2 = h.Signal(width=2)
+    m.b = h.BundleInstance(of=B)
+    m.dd = h.Diff()
+    m.r = h.InstanceArray(of=C({}), n=2)(a=sig, b=m.d2)
+    m.q = h.Pair(of=P)(q=m.dd, g=sig)
+    m.i = C({})(b=sig)
+    m.j = C({})(a=m.i.a, b=h.NoConn())
+    m.k = C({})(a=m.b.x, b=h.NoConn(name="xy"))
+    if late:
+        m.add(sig), m.add(mine)
+    mine.connect("a", sig)
+    mine.connect("b", m.s)
+    try:
+        pkg = h.to_proto(m)
+    except Exception:
+        env.COUNTS["reached"] += 1
+        return True
+    env.COUNTS["reached"] += 1
+    why = _validate(pkg)
+    if why:
+        WHY["why"] = why
+        return False
+    # the designer's signal is still declared, and the designer's instance still connects to it
+    pm = pkg.modules[-1]
+    if sname not in [x.name for x in pm.signals]:
+        WHY["why"] = "designer signal vanished"
+        return False
+    mi = [i for i in pm.instances if i.name == iname]
+    return len(mi) == 1 and {c.portname: c.target.sig for c in mi[0].connections} == {"a": sname, "b": "s"}
